@@ -320,6 +320,10 @@ def opc3_prologue(ctx: Ctx) -> None:
         calls = [c for c in ast.walk(br) if isinstance(c, ast.Call) and isinstance(c.func, ast.Name) and c.func.id == "describe_assignment_target"
                  and mod.parent_of(c) is not None and any(c is x for s in br.body for x in ast.walk(s))]
         if len(calls) != 1:
+            if _opc3c_all_ok(ctx):
+                ctx.R.ok("OPC-3", f"{v}: not applied to this shape (the arm does not call describe_assignment_target itself)", "deferred to OPC-3c: the loop body evaluated on every prologue layout of every interpreter decodes the target at the right index")
+                ctx.R.ok("OPC-3", f"{v}: (second kind, same deferral)")
+                continue
             raise AnalysisError(f"OPC-3: expected one describe_assignment_target call in the {v} branch")
         arg = calls[0].args[1]
         if not (isinstance(arg, ast.BinOp) and isinstance(arg.op, ast.Add) and norm(arg.left) == "idx"):
@@ -1801,6 +1805,16 @@ def opc15_exit_sites(ctx: Ctx) -> None:
     mod = ctx.P.mod("_lowlevel")
     fn = mod.fn("currently_exiting_context")
     n_ok = 0
+    # the exception-table entries are 5-tuples; if the module gives them field names (a typing.NamedTuple of five fields that
+    # _parse_exception_table yields), the stand-in entries carry the same names
+    entry_type = lambda *x: tuple(x)
+    pet = [f_ for f_ in ast.walk(mod.tree) if isinstance(f_, ast.FunctionDef) and f_.name == "_parse_exception_table"]
+    for cd in ast.walk(mod.tree):
+        if isinstance(cd, ast.ClassDef) and any(norm(b_).split(".")[-1] == "NamedTuple" for b_ in cd.bases):
+            flds = [a_.target.id for a_ in cd.body if isinstance(a_, ast.AnnAssign) and isinstance(a_.target, ast.Name)]
+            if len(flds) == 5 and pet and any(isinstance(c_, ast.Call) and norm(c_.func) == cd.name for c_ in ast.walk(pet[0])):
+                import collections as _collections
+                entry_type = _collections.namedtuple(cd.name.lstrip("_") or "Entry", flds, rename=True)
     for v in sorted(ctx.V.all, key=lambda s_: tuple(map(int, s_.split(".")))):
         IF = ctx.F["interp"][v]
         shapes = IF.get("exit_sites")
@@ -1836,7 +1850,7 @@ def opc15_exit_sites(ctx: Ctx) -> None:
                     code_obj = NS(co_code=list(sh["co_code"]), co_consts=[None if x else 0 for x in sh["consts_none"]], co_name=name)
                     env = {"frame": NS(f_lasti=pos, f_code=code_obj), "dis": NS(opmap=dict(omap), hasjabs=[], hasjrel=[]), "sys": NS(version_info=tuple(IF["version_info"]), implementation=NS(name="cpython")),
                            "warnings": NS(warn=lambda *a, **k: warned.append("warn")), "InspectionWarning": "InspectionWarning", "types": NS()}
-                    ext = {"bytes": lambda x: list(x), "ExitingContext": lambda **k: NS(**k), "_parse_exception_table": lambda c_, _e=sh["entries"]: [tuple(x) for x in _e], "len": len}
+                    ext = {"bytes": lambda x: list(x), "ExitingContext": lambda **k: NS(**k), "_parse_exception_table": lambda c_, _e=sh["entries"]: [entry_type(*x) for x in _e], "len": len}
                     m = Mini(env, {}, ext, fuel=20000)
                     _module_prelude(m, mod)
                     res = "fell off"
